@@ -23,7 +23,7 @@ FUNCTIONS = [
     "lasio/las.py::LASFile.update_start_stop_step",
     "lasio/las.py::LASFile.update_units_from_index_curve",
 ]
-STATES = ["scratch", "read-unchanged", "read-index-edited", "read-stop-mismatch", "read-other-curve-edited", "really-read-index-edited-in-place", "scratch-no-header-units"]
+STATES = ["scratch", "read-unchanged", "read-index-edited", "read-stop-mismatch", "read-other-curve-edited", "really-read-index-edited-in-place", "scratch-no-header-units", "really-read-integer-stop-mismatch"]
 INDEXES = {"increasing": [1.0, 2.0, 3.0], "decreasing": [30.0, 20.0, 10.0], "single": [5.0], "irregular": [1.0, 2.0, 4.5]}
 BOUNDS = {
     "quick": {"field_len_cap": 1, "sections": ["W", "P"], "states": STATES, "indexes": list(INDEXES), "task_budget_s": 900},
@@ -54,13 +54,17 @@ def tasks(tier):
 def build(ns, section, fields, state, idx_name):
     HeaderItem = ns.items.HeaderItem
     idx = np.array(INDEXES[idx_name])
-    if state == "really-read-index-edited-in-place":
-        # a LASFile that really went through read(), then an edit of the index *in place*
-        lines = ["~Version", "VERS. 2.0 : v", "WRAP. NO : w", "~Well", "STRT.FT %r : s" % float(idx[0]), "STOP.FT %r : e" % float(idx[-1]), "STEP.FT %r : i" % (float(idx[1] - idx[0]) if len(idx) > 1 else 0.0),
+    if state in ("really-read-index-edited-in-place", "really-read-integer-stop-mismatch"):
+        # a LASFile that really went through read(), then an edit of the index *in place* - or no edit at all
+        # but a STOP line holding an integer literal (read as numpy.int64) that disagrees with the last sample
+        stop = "STOP.FT %r : e" % float(idx[-1]) if state == "really-read-index-edited-in-place" else "STOP.FT %d : e" % (int(idx[-1]) + 7)
+        lines = ["~Version", "VERS. 2.0 : v", "WRAP. NO : w", "~Well", "STRT.FT %r : s" % float(idx[0]), stop, "STEP.FT %r : i" % (float(idx[1] - idx[0]) if len(idx) > 1 else 0.0),
                  "NULL. -999.25 : n", "COMP. ACME : c", "~Curve", "DEPT.FT : depth", "GR.API : gamma", "~Parameter", "NE.k : empty value with unit", "~A"] + ["%r %r" % (float(x), 10.0 + 1.5 * k) for k, x in enumerate(idx)]
         las = ns.las.LASFile()
         las.read(SymFile(lines), engine="normal")
         W.add_items(ns, las, section, fields, "narrow", True)
+        if state == "really-read-integer-stop-mismatch":
+            return las
         if len(idx) > 1:
             las.index[:-1] -= 0.25  # the last sample (and so STOP) stays
         else:
@@ -165,7 +169,7 @@ def harness(ns, params):
         core.witness("single-sample-index", idx_name == "single")
         s0 = full_snapshot(las)
         index_now = np.array(list.__getitem__(las.curves, 0).data, copy=True)
-        refresh = state in ("scratch", "read-index-edited", "read-stop-mismatch", "scratch-no-header-units") or (state == "really-read-index-edited-in-place" and idx_name != "single")
+        refresh = state in ("scratch", "read-index-edited", "read-stop-mismatch", "scratch-no-header-units", "really-read-integer-stop-mismatch") or (state == "really-read-index-edited-in-place" and idx_name != "single")
         core.witness("refresh-required", refresh)
         core.witness("refresh-not-required", not refresh)
         try:
@@ -222,7 +226,7 @@ def replay(i):
     las = build(ns, section, (i["m"], i["u"], i["v"], i["d"]), state, idx_name)
     s0 = full_snapshot(las)
     index_now = np.array(las.curves[0].data, copy=True)
-    refresh = state in ("scratch", "read-index-edited", "read-stop-mismatch", "scratch-no-header-units") or (state == "really-read-index-edited-in-place" and idx_name != "single")
+    refresh = state in ("scratch", "read-index-edited", "read-stop-mismatch", "scratch-no-header-units", "really-read-integer-stop-mismatch") or (state == "really-read-index-edited-in-place" and idx_name != "single")
     try:
         o1 = io.StringIO()
         las.write(o1, **opts)
